@@ -3,4 +3,5 @@ CONSTANTS
   MaxH = 3
   FlushEvery = FALSE
 INVARIANT StoresAgreeOnPrefix
+INVARIANT WalIntactWhenWriting
 ACTION_CONSTRAINT DumpCrash
